@@ -8,19 +8,21 @@
 //   carries the pid and a per-process sequence number; no wall-clock time.
 // * `gate` blocks at a named point until a controller answers, if
 //   `REDO_VERIF_GATE` names a directory holding the request FIFO `req`.  The
-//   process creates `ack.<pid>`, writes `<pid> <point> <json>` to `req` and reads
-//   one byte from its ack FIFO: `g` = go on, `d` = die (SIGKILL to itself).
+//   process writes `<pid> <point> <json>` to `req` and polls for the reply file
+//   `ack.<pid>.<rq>` holding one byte: `g` = go on, `d` = die (SIGKILL to itself).
 //   `REDO_VERIF_GATE_POINTS` (comma separated) restricts the active points.
 
 use std::cell::RefCell;
 use std::env;
 use std::fmt::Write as FmtWrite;
 use std::fs::{File, OpenOptions};
-use std::io::{Read, Write};
+use std::io::Write;
 use std::os::unix::fs::OpenOptionsExt;
 use std::path::PathBuf;
 
 struct Tracer {
+    gate_pid: u32,
+    gate_seq: u64,
     pid: u32,
     seq: u64,
     file: Option<File>,
@@ -28,7 +30,7 @@ struct Tracer {
 }
 
 thread_local! {
-    static TRACER: RefCell<Tracer> = RefCell::new(Tracer { pid: 0, seq: 0, file: None, opened: false });
+    static TRACER: RefCell<Tracer> = RefCell::new(Tracer { gate_pid: 0, gate_seq: 0, pid: 0, seq: 0, file: None, opened: false });
 }
 
 /// Values that can be written as JSON by the hooks.
@@ -182,18 +184,27 @@ fn gate_active(point: &str) -> Option<PathBuf> {
 }
 
 /// Block at a named point until the controller lets us continue (or kills us).
+///
+/// Request: one line `<pid> <point> <json>` written to the FIFO `req` (the json carries a
+/// per-process request number `rq`).  Reply: a regular file `ack.<pid>.<rq>` holding one byte,
+/// created atomically by the controller; we poll for it.
 pub fn gate(point: &str, fields: &[(&str, &dyn VJson)]) {
     let dir = match gate_active(point) {
         Some(d) => d,
         None => return,
     };
     let pid = std::process::id();
-    let ack = dir.join(format!("ack.{}", pid));
-    if !ack.exists() {
-        let _ = nix::unistd::mkfifo(&ack, nix::sys::stat::Mode::from_bits_truncate(0o600));
-    }
+    let rq = TRACER.with(|t| {
+        let mut t = t.borrow_mut();
+        if t.gate_pid != pid {
+            t.gate_pid = pid;
+            t.gate_seq = 0;
+        }
+        t.gate_seq += 1;
+        t.gate_seq
+    });
     let mut line = String::with_capacity(128);
-    let _ = write!(line, "{} {} {{\"comm\":", pid, point);
+    let _ = write!(line, "{} {} {{\"rq\":{},\"comm\":", pid, point, rq);
     env::args()
         .next()
         .map(|a| a.rsplit('/').next().unwrap_or("").to_string())
@@ -213,19 +224,17 @@ pub fn gate(point: &str, fields: &[(&str, &dyn VJson)]) {
     if sent.is_err() {
         return;
     }
-    let mut b = [0u8; 1];
-    // Signals (SIGCHLD, the jobserver's SIGALRM) may interrupt the blocking open or read.
-    let got = loop {
-        match File::open(&ack).and_then(|mut f| f.read(&mut b)) {
-            Err(ref e) if e.kind() == std::io::ErrorKind::Interrupted => continue,
-            r => break r,
+    let ack = dir.join(format!("ack.{}.{}", pid, rq));
+    let verdict = loop {
+        match std::fs::read(&ack) {
+            Ok(ref v) if !v.is_empty() => break v[0],
+            _ => std::thread::sleep(std::time::Duration::from_micros(300)),
         }
     };
-    if let Ok(1) = got {
-        if b[0] == b'd' {
-            unsafe {
-                libc::kill(libc::getpid(), libc::SIGKILL);
-            }
+    let _ = std::fs::remove_file(&ack);
+    if verdict == b'd' {
+        unsafe {
+            libc::kill(libc::getpid(), libc::SIGKILL);
         }
     }
 }
